@@ -1273,7 +1273,8 @@ def _nas_cases(rnd, table, shapes, tier):
                 lengths = arr_allowed(row[0], oshapes[i]["cap"])
                 if len(lengths) < 2:
                     continue
-            for L in lengths:
+            arr = bool(oshapes[i] and oshapes[i]["kind"] in ("lv-array", "lve-array"))
+            for L in (lengths if not arr else [x for x in lengths for _ in range(3)]):
                 hdr = [0] if t["epd"] == 126 else [rnd.randrange(256), rnd.randrange(256)]
                 mand = [[rnd.randrange(256) for _ in range(val_len(r2[1], r2[2], s2, 1))] for (r2, s2) in zip(t["mand"], mshapes)]
                 opt = []
@@ -1283,6 +1284,10 @@ def _nas_cases(rnd, table, shapes, tier):
                     rj = t["opt"][j]
                     if j == i:
                         v = [rnd.randrange(256) for _ in range(L)]
+                        if arr:
+                            # array-backed elements: all-ones, all-zero and random contents in turn (values with a reserved meaning, such
+                            # as the SD FFFFFF of an S-NSSAI, are octets like any others on the wire)
+                            v = [[255] * L, [0] * L, v][len(cases) % 3]
                     elif rj[1] == "TV1":
                         v = [[0, 15, rnd.randrange(16)][(L + j) % 3]]
                     else:
@@ -1299,6 +1304,18 @@ def _nas_cases(rnd, table, shapes, tier):
                     cases.append({"id": idn, "kind": "msg", "name": name, "hdr": hdr, "mand": mand, "opt": opt,
                                   "perm": [pos] + [q for q in range(1, len(opt) + 1) if q != pos]})
                     idn += 1
+    # N1 SM containers that hold a real 5GSM message (PDU SESSION ESTABLISHMENT REQUEST with its two half-octet IEs in table order and
+    # swapped): the transport message carries the container octets as they are, whatever a 5GSM codec would make of them
+    for name in ("ULNASTransport", "DLNASTransport"):
+        if name not in table:
+            continue
+        t = table[name]
+        for inner in ([0x2e, 5, 1, 0xc1, 0xff, 0xff, 0x91, 0xa1], [0x2e, 5, 1, 0xc1, 0xff, 0xff, 0xa1, 0x91], [0x2e, 5, 1, 0xc1, 0xff, 0xff, 0xa1, 0x91, 0x7b, 0, 1, 0x80]):
+            mand = [[1] if len(row) > 2 and row[2] == 1 else list(inner) for row in t["mand"]]
+            if len(mand) == 2:
+                mand = [[1], list(inner)]
+            cases.append({"id": idn, "kind": "msg", "name": name, "hdr": [0], "mand": mand, "opt": [], "perm": []})
+            idn += 1
     # the same sweep for the mandatory LV / LV-E information elements (5GS mobile identity, ABBA, EAP message, payload container ...)
     for name in sorted(table):
         t = table[name]
